@@ -47,7 +47,8 @@ PROPS = {
     "C16": sysprop(["C16"], ["mixed", "local", "default"], 250, 4000, GEN_RULE + "; plus random programs over the whole public API "
                    "against fastrace built WITHOUT the enable feature (no reporter call, no thread, no context, no closure invoked)",
                    extra=[S.verdict_stream_for("disabled", "disabled", "run", 60, 2000, flags="", shards=4, binary="vdisabled")]),
-    "C17": sysprop(["C17"], ["mixed", "local", "default"], 250, 4000, GEN_RULE),
+    "C17": sysprop(["C17"], ["mixed", "collect", "local", "default"], 250, 4000, GEN_RULE + "; the collect profile favours local collectors, "
+                   "collection with open local spans, pushing one set under several parents and to_span_records"),
     "C15": {"coq": ["C15"], "streams": [S.twins_stream], "replay_sub": "sys",
             "rule": "catalogue of 13 function shapes (sync with early return / ? / panic / generic with lifetime / &mut self method; "
                     "async fn with in_span and with enter_on_poll; hand-written Box::pin forms with and without leading statements; "
@@ -60,7 +61,7 @@ PROPS = {
                             "the order in which unused by-value arguments are dropped is not claimed"]},
     "C18": sysprop(["C18"], ["mixed", "local", "default", "adapters"], 150, 3000,
                    GEN_RULE + "; C18 compares times: order of all time points of a report against the model's logical clock, "
-                   "durations against the wall-clock bracket of the calls that started/finished the span (20us + 2% slack), "
+                   "durations against the wall-clock bracket of the calls that started/finished the span (lower bound 3us + 2%, upper bound 20us + 2% slack), "
                    "begin times against the wall-clock window of the creating call (50 ms slack)"),
     "C19": {"coq": ["C19"], "streams": [S.jaeger_stream, S.reporters_stream_for("datadog", 12, 200), S.reporters_stream_for("otel", 12, 200)], "replay_sub": "jaeger",
             "rule": "record batches: random records (boundary ids incl. top bit set, 0, max; random u64 times; UTF-8 names/keys/values "
